@@ -34,7 +34,7 @@ ASSUME_COMMON = [
     "regex C engine replaced by the AST-level model of vf/rxstub.py for symbolic subjects (validated against the real engine; every path re-run concretely on the real engine)",
     "Parser.BUILTIN / scanner.ESCAPES replaced by symbolic-key-aware containers with the same entries",
     "inputs longer than the stated bound and grammars outside the generated family are outside the claim",
-    "units with case-insensitive literals constrain the input to ASCII (statement of C12)",
+    "case-insensitive literals: the reference slice (C03-C05) constrains their input to ASCII (pest defines ^\"..\" for ASCII only); the self-comparing properties take every code point. A text character that expands under full case folding meeting a VERSION1 (?i) literal gets no verdict (its witness is still run); no such pattern exists on the repaired tree",
     "trusted: CPython, z3, the regex package's own pattern parser",
 ]
 
